@@ -39,6 +39,7 @@ fn all_types() -> Vec<MessageType> {
 
 /// Run one entry point under the three observers (panic, allocation, time).
 fn observe<T>(what: &str, len: usize, f: impl FnOnce() -> T) -> Result<T, Fail> {
+    crate::hang::label(what);
     let t0 = Instant::now();
     let (r, peak, largest) = measure(|| guard(f));
     let dt = t0.elapsed();
@@ -59,6 +60,13 @@ fn observe<T>(what: &str, len: usize, f: impl FnOnce() -> T) -> Result<T, Fail> 
 
 /// The whole C04 oracle for one byte string.  `all_type_codes` additionally tries every type code.
 pub fn check_bytes(b: &[u8], all_type_codes: bool) -> Check {
+    crate::hang::enter(b);
+    let r = check_bytes_inner(b, all_type_codes);
+    crate::hang::leave();
+    r
+}
+
+fn check_bytes_inner(b: &[u8], all_type_codes: bool) -> Check {
     let n = b.len();
     // message stream, then radial conversion of whatever decoded
     let msgs = observe("decode_messages", n, || decode_messages(&mut Cursor::new(b)))?;
@@ -458,7 +466,7 @@ pub fn run(ctx: &Ctx, rep: &mut Report) {
 pub fn replay(sub: &str, case: &Value) -> Check {
     let r = match sub {
         "mutated-streams" => check_mut_case(&from_case::<MutCase>(case)?),
-        "random-bytes" | "every-length-0-128" | "every-prefix" | "fuzz" => check_bytes(&from_case::<RawCase>(case)?.bytes, true),
+        "random-bytes" | "every-length-0-128" | "every-prefix" | "fuzz" | "nontermination" => check_bytes(&from_case::<RawCase>(case)?.bytes, true),
         other => return super::unknown_sub(other),
     };
     match r {
